@@ -28,7 +28,7 @@ WRAP = "-Wl,--wrap=malloc,--wrap=realloc,--wrap=free,--wrap=mmap,--wrap=munmap,-
        "--wrap=ftruncate,--wrap=ftruncate64,--wrap=close,--wrap=syscall"
 
 QUICK_WL = ["asm", "a64", "build", "comp", "jit", "jitdual", "cont", "asmretry", "asmbig", "buildbig", "compbig", "jitpools", "buildretry",
-            "arenahist", "compcf", "compa64"]
+            "arenahist", "arenareuse", "compcf", "compa64"]
 THOROUGH_WL = QUICK_WL
 CLASSES = ("arena", "heap", "vm")
 
@@ -472,6 +472,8 @@ def run_workload(res, h, w, rng, tier, dist):
             lines += ["fault %s arena %d %d" % (w, k, k + d) for d in range(1, 13)]
     if w == "jitdual":
         dist["shapes"]["jitdual: vm requests (memfd_create, ftruncate, 2 x mmap per block)"] = c["vm"]
+    if w == "arenareuse":
+        dist["shapes"]["arenareuse: malloc requests (5 leftovers 16..2040: first block + the block alloc_reusable needs after pooling the leftover)"] = c["heap"]
     if w == "arenahist":
         dist["shapes"]["arenahist: malloc requests (3 growth blocks, replacement after soft reset, dynamic block)"] = c["heap"]
     pos = 0
@@ -484,7 +486,8 @@ def run_workload(res, h, w, rng, tier, dist):
         done_lines += chunk[:len(out)]
         if rc != 0 and len(out) < len(chunk):
             bad = chunk[len(out)]
-            tail = "\n".join(x for x in err.splitlines() if "ERROR" in x or "SUMMARY" in x or "runtime error" in x or re.match(r"\s+#[0-3] ", x))
+            tail = "\n".join(x for x in err.splitlines() if "ERROR" in x or "SUMMARY" in x or "runtime error" in x or "C15-CORRUPTION" in x or
+                             re.match(r"\s+#[0-3] ", x))
             res.violation("crash / sanitizer report under injected allocation failure in `%s`: %s" % (bad, tail[-700:]),
                           {"ops": [bad]}, found_input=True, key="crash:" + w)
             dist["crashes"] = dist.get("crashes", 0) + 1
